@@ -29,7 +29,7 @@ RULE = ("2-3 real threads, serialised by a token-passing scheduler, each run one
         "non-trivial = distinct schedules (hash of the decision list) containing a context switch inside a point operation")
 ASSUMPTIONS = ["CPython: a context switch can only happen between bytecodes; line granularity (instruction granularity for the shared-field accesses in thorough) is what is explored",
                "reference arithmetic (vf/ref)", "schedules beyond the delay bound / sampled ones are not covered"]
-REQUIRED = {"quick": ["schedule.systematic", "schedule.random", "schedule.pct", "free_running", "switch_in_scale_window", "switch_in_precompute_window",
+REQUIRED = {"quick": ["schedule.stores_systematic", "post_run_reexecutions", "schedule.systematic", "schedule.random", "schedule.pct", "free_running", "switch_in_scale_window", "switch_in_precompute_window",
                       "invariant_checks", "snapshot_pickles", "op.mul", "op.add", "op.scale", "op.eq", "op.pickle", "op.verify", "op.sign", "op.precompute",
                       "op.to_affine", "op.x", "op.mul_add"]}
 WATCHDOG_S = {"quick": 900, "thorough": 3400}
